@@ -39,6 +39,12 @@ def families(prop: str, tier: str, seed: int) -> Dict[str, List[gen.Spec]]:
         fam["edge"] = (gen.family_H(seed, 6 if q else 250)
                        + gen.family_T_random(seed + 2, 10 if q else 150, min_states=4, max_states=6))
         fam["walk"] = gen.family_H(seed + 3, 8 if q else 80, density=0.6)
+    elif prop == "C07":
+        fam["edge"] = (gen.family_T_random(seed, 6 if q else 200, min_states=3, max_states=5, double=True)
+                       + gen.family_R(seed + 1, 6 if q else 200)
+                       + gen.family_F(seed + 2, 6 if q else 200)
+                       + gen.family_S(seed + 3, 4 if q else 150))
+        fam["walk"] = gen.family_F(seed + 4, 6 if q else 60)
     elif prop == "C13":
         fam["edge"] = gen.family_A(seed, 48 if q else 400) + gen.family_R(seed + 1, 10 if q else 200)
         fam["walk"] = gen.family_A(seed + 3, 8 if q else 80)
@@ -96,6 +102,7 @@ def rule_for(prop: str) -> str:
         "C03": "as C01; every executed transition's log segment is checked for order/accounting/frame",
         "C20": "machine family E: two-level machines whose child, parent and root each declare a random subset of the key universe {exact keys up to 3 segments, a.*, a.b.*, a.a.*, b.*, *, ab, done.*, xstate.*, exact synthetic keys}, optionally guarded candidates and null (forbidden) keys; every event type of <=3 segments over {a,b} plus look-alikes (ab, a.bb) and the four synthetic prefixes is sent from every reachable state under every guard valuation",
         "C06": "machine family G: fixed two-level template with stateIn-visible sibling region; candidate lists [guarded, guarded, fallback] on the child, a guarded handler on the parent, a never-implemented guard as first candidate, and a choose action; guard expressions of nesting depth <=2 over named, parameterised, stateIn (three spellings), and missing atoms, operand spellings children / params.guards / params.children / params.guard, guard vs cond key; valuations over {true,false,raise} per atom",
+        "C07": "families T/R/F/S; for every reachable state x relevant event the step is explored fault-free and once per user action its fault-free run executes with that action raising (pairs of actions in the thorough tier); family F adds aborting errors (unimplemented entry/exit/transition actions, biased to default-descended states); every edge is also replayed with a plugin whose every hook raises, a raising subscriber and a raising emit listener attached",
         "C13": "machine family A: always rings and finite always chains, self-raise, raise rings, exit-action raise, onDone re-completion rings and finite onDone chains, mixed raise (one raising and one non-raising event per round); maxIterations M in {2,3,5}, chain length L in {M-1, M, M+1}; triggered at start() or by an event; plus bursts of M+2 copies of every relevant event sent in one send_events call; family R for ordinary reactions. Non-termination is detected without a clock: the recorder aborts a public step after 10*(M+1) dequeued events, the specification does the same (fuel), both report Diverged",
         "C10": "machine families D (compound/parallel nests with final children, onDone absent/targetless/guarded/targeted at every level, top-level finals with outputs), R (raise/assign reactions, events queued behind completion) and T; every reachable state x event x guard valuation; completions are counted as rising edges of in-final along the configuration reconstructed from entry/exit witnesses",
         "C11": "machine families H (shallow/deep/both history children under compound and parallel parents, nested regions, default targets, wrapper depth) and T; TLC reaches never-visited / visited / re-visited-with-other-leaves histories by exploring all event sequences; every history-targeting edge from outside the parent is compared with the configuration remembered at the parent's last exit",
@@ -127,7 +134,13 @@ def run(prop: str, tier: str, seed: int) -> int:
             units.append({"specs": g, "engine": eng, "props": [prop], "seed": seed, "gvals": gvals,
                           "with_can": prop == "C02" and eng != "pure", "mc": True,
                           "tlc_workers": 3 if _size(g[0]) >= 400 else 2, "walks": (0, 0),
-                          "max_states": 150 if q else 10 ** 8, "with_burst": prop == "C13"})
+                          "max_states": (80 if prop == "C07" else 150) if q else 10 ** 8, "with_burst": prop == "C13",
+                          "with_faults": prop == "C07", "fault_pairs": prop == "C07" and not q})
+            if prop == "C07":
+                # (b) every edge again with a plugin, a subscriber and an emit listener that always raise
+                units.append({"specs": g, "engine": eng, "props": [prop], "seed": seed, "gvals": gvals,
+                              "with_can": False, "mc": True, "tlc_workers": 2, "walks": (0, 0),
+                              "max_states": 40 if q else 10 ** 8, "observer_faults": True})
     for eng in engines_for(prop):
         for i, sh in enumerate(shard(fam["walk"], 2 if q else 6)):
             units.append({"specs": sh, "engine": eng, "props": [prop], "seed": seed + 17 * i, "gvals": gvals,
